@@ -380,6 +380,8 @@ type Contract struct {
 	Results  []Param
 	Requires []*Clause
 	Ensures  []*Clause
+	Rely      []*Clause // monitor: two-state relation other goroutines keep to (assumed on re-acquisition)
+	Guarantee []*Clause // monitor: two-state relation every critical section keeps to (obligation at release)
 	Modifies []string // place names: "T.f", "map:T.f", "chan", "*" ; nil = nothing when ModifiesSet
 	ModifiesSet bool
 	Loops    []*LoopSpec
@@ -639,12 +641,19 @@ func ReadContractFile(path, pkgPath string) ([]*Contract, error) {
 			if tgt == nil {
 				return nil, fmt.Errorf("%s:%d: clause outside block: %s", path, l.n, s)
 			}
-			if word == "invariant" && tgt.Kind == "monitor" {
+			if tgt.Kind == "monitor" && (word == "invariant" || word == "rely" || word == "guarantee") {
 				cl, err := mkClause(word, rest, l.n)
 				if err != nil {
 					return nil, err
 				}
-				tgt.Requires = append(tgt.Requires, cl)
+				switch word {
+				case "invariant":
+					tgt.Requires = append(tgt.Requires, cl)
+				case "rely":
+					tgt.Rely = append(tgt.Rely, cl)
+				case "guarantee":
+					tgt.Guarantee = append(tgt.Guarantee, cl)
+				}
 				continue
 			}
 			switch word {
